@@ -201,6 +201,50 @@ func runC01(ctx *report.Ctx) {
 		walkProgram(ctx, c, "F3", p, stdHost, wo, nil)
 	})
 
+	// HUB: one jump-by-expression statement executed several times by one runner with a different destination
+	// each time (a hub node that is re-entered): every execution goes where the expression points now
+	ctx.Bound("HUB", "hub node re-entered 3 times; 7 destination expressions over variables x 3 placements of the jump (plain, inside an if, inside an option body) x 2 room orders")
+	part(ctx, "HUB", -1, func(c *explore.Chooser) {
+		s := func() *yc.Expr { return yc.EVariable("s") }
+		exprs := []*yc.Expr{
+			yc.EBinary("+", yc.EString("R"), s()), yc.EBinary("+", yc.EVariable("p"), s()), yc.EBinary("+", yc.EString(""), yc.EBinary("+", yc.EString("R"), s())),
+			yc.EParens(yc.EBinary("+", yc.EString("R"), s())), yc.EVariable("t"), yc.EBinary("+", yc.EString(""), yc.EVariable("t")), yc.EBinary("+", yc.EBinary("+", yc.EString(""), yc.EString("R")), s()),
+		}
+		e := exprs[c.Choose(len(exprs), "expr")]
+		placement := c.Choose(3, "placement")
+		order := c.Choose(2, "order")
+		if !c.Mine() {
+			return
+		}
+		var hub []*yc.Stmt
+		hub = append(hub, yc.Line("hub"))
+		switch placement {
+		case 0:
+			hub = append(hub, yc.JumpE(e))
+		case 1:
+			hub = append(hub, yc.If(&yc.Clause{Cond: yc.EBoolean(true), Body: []*yc.Stmt{yc.JumpE(e)}}))
+		case 2:
+			hub = append(hub, yc.Options(&yc.Option{Line: yc.TextLine("go"), Body: []*yc.Stmt{yc.JumpE(e)}}, &yc.Option{Line: yc.TextLine("stay"), Body: []*yc.Stmt{yc.Line("stayed")}}))
+		}
+		next := map[string]string{"a": "b", "b": "c"}
+		if order == 1 {
+			next = map[string]string{"a": "c", "c": "b"}
+		}
+		room := func(n string) *yc.Node {
+			body := []*yc.Stmt{yc.Line("room " + n)}
+			if nx, ok := next[n]; ok {
+				body = append(body, yc.Set("s", "=", yc.EString(nx)), yc.Set("t", "=", yc.EString("R"+nx)), yc.Jump("Hub"))
+			}
+			return &yc.Node{Title: "R" + n, Body: body}
+		}
+		p := &yc.Program{Nodes: []*yc.Node{{Title: "Hub", Body: hub}, room("a"), room("b"), room("c")}}
+		hs := &yc.HostSpec{Vars: map[string]yc.Value{"s": yc.Str("a"), "p": yc.Str("R"), "t": yc.Str("Ra")}}
+		woHub := wo
+		woHub.MaxSteps = 12
+		woHub.MaxJumps = 8
+		walkProgram(ctx, c, "HUB", p, hs, woHub, nil)
+	})
+
 	// R: distribution of nodes over readers; start node = first node of the first reader
 	ctx.Bound("R", "1..3 nodes with <=2 statements (line/jump/stop), every composition of the node list into readers")
 	part(ctx, "R", -1, func(c *explore.Chooser) {
